@@ -1,42 +1,4 @@
-/* C20: every Task::execute(start,end) writes exactly result[i] = op(args[i]) for start <= i < end, leaves every other
- * element of the result and every argument untouched, for EVERY sub-range [start,end) of [0,len) - hence the outcome
- * is independent of how a WorkerPool partitions the range, of the order of the sub-ranges and of their running
- * concurrently (write frames of disjoint sub-ranges are disjoint; arguments are only read).
- * Arrays are arbitrary valid FixedArray<int> states (see C19): length L <= N, stride 1..2, direct or masked.
- * Backing stores are static arrays of 4N elements: the first cap = length*stride (resp. unmaskedLength*stride) belong
- * to the array, the rest is a guard zone with ARBITRARY contents: a write outside the array changes the guard (checked),
- * a read outside the array makes the result depend on an arbitrary value (the exact-result check then fails), and an
- * access beyond the guard is a CBMC bounds violation. */
-#include "verif.h"
-#include <stdlib.h>
-#include GEN_H
-#ifndef N
-#define N 3
-#endif
-typedef struct T_class_PyImath__FixedArray FA;
-uint8_t* STUB___cxa_begin_catch(uint8_t* p) { return p; }
-void STUB__ZSt9terminatev(void) { ASSUME(0); }
-static struct T_class_boost__detail__sp_counted_base cnt;
-
-/* declare one array P of python-level length LEN with mask flag MSK (compile-time 0/1) and writable flag WR */
-#define ARR(P, LEN, MSK, WR)                                                                                  \
-    IN(u64, P##_stride); IN(u64, P##_ul); INA(u64, P##_ix, N); INA(u32, P##_init, 4 * N);                     \
-    static u64 P##_idx[N]; FA P; static u32 P##_data[4 * N]; u64 P##_cap;                                     \
-    ASSUME(P##_stride >= 1 && P##_stride <= 2);                                                               \
-    if (MSK) { ASSUME(P##_ul <= N && (LEN) <= P##_ul); P##_cap = P##_ul * P##_stride; } else { P##_cap = (LEN) * P##_stride; } \
-    for (u64 j_ = 0; j_ < 4 * N; j_++) P##_data[j_] = P##_init[j_];                                           \
-    for (int i_ = 0; i_ < N; i_++) { P##_idx[i_] = P##_ix[i_]; if (MSK) { ASSUME(P##_ix[i_] < P##_ul); if (i_ + 1 < N && (u64)(i_ + 1) < (LEN)) ASSUME(P##_ix[i_] < P##_ix[i_ + 1]); } } \
-    P.f0 = P##_data; P.f1 = (LEN); P.f2 = P##_stride; P.f3 = (WR); P.f4.f0 = 0; P.f6 = (MSK) ? P##_ul : 0;   \
-    if (MSK) { P.f5.f0 = P##_idx; P.f5.f1.f0 = &cnt; cnt.f1 = 1000; cnt.f2 = 1000; } else { P.f5.f0 = 0; P.f5.f1.f0 = 0; }
-#define SLOT(P, MSK, k) (((MSK) ? P##_idx[k] : (k)) * P##_stride)
-#define UNCHANGED(P) for (u64 j_ = 0; j_ < 4 * N; j_++) CHECK(P##_data[j_] == P##_init[j_], #P ": argument array is not modified")
-#define RANGE IN(u64, L); IN(u64, s); IN(u64, e); ASSUME(L <= N && s <= e && e <= L)
-/* result array: element i in [s,e) == WANT, every other slot of its backing store unchanged */
-#define RESULT(P, MSK, WANT)                                                                                  \
-    { u32 exp_[4 * N]; for (u64 j_ = 0; j_ < 4 * N; j_++) exp_[j_] = P##_init[j_];                            \
-      for (u64 i = 0; i < L; i++) if (i >= s && i < e) exp_[SLOT(P, MSK, i)] = (WANT);                        \
-      for (u64 j_ = 0; j_ < 4 * N; j_++) CHECK(P##_data[j_] == exp_[j_], #P ": exactly the elements start <= i < end are written, each with op(args[i]); guard zone intact"); }
-
+#include "common.h"
 #define H_OP1(NAME, RM_, AM_) HARNESS(h_neg_##NAME) { RANGE; ARR(r, L, RM_, 1); ARR(a, L, AM_, 1); \
     __verif_exc = 0; w_neg_##NAME(&r, &a, s, e); CHECK(__verif_exc == 0, "no exception"); \
     RESULT(r, RM_, (u32)(-(i32)a_init[SLOT(a, AM_, i)])); UNCHANGED(a); END; }
